@@ -120,3 +120,21 @@ func CloseWAL(w *wal.WAL) error {
 	hooks.Forget(w)
 	return err
 }
+
+// ApplyNoWait executes op without waiting for a background rotation it triggered.
+func ApplyNoWait(w *wal.WAL, op gen.Op) Result {
+	var err error
+	switch op.Kind {
+	case "append":
+		err = w.StoreLogs(op.Logs)
+	case "delete":
+		err = w.DeleteRange(op.Min, op.Max)
+	case "set":
+		err = w.Set(op.Key, op.Val)
+	case "setu64":
+		err = w.SetUint64(op.Key, op.U64)
+	default:
+		err = fmt.Errorf("drv: unknown op %q", op.Kind)
+	}
+	return Result{Err: err, Quiesced: true}
+}
